@@ -273,3 +273,95 @@ func zzH_C18r() {
 	c.Close()
 	vReach("end")
 }
+
+// zzH_C18x: three live targets, the cursor anywhere, then one target goes away: calls that hit it
+// fail, a detector round (driven by the harness) rebuilds the shorter live list, and the calls after
+// that are routed to the two remaining targets - the client neither crashes nor wedges (a panic in
+// routing would leave its lock held).
+func zzH_C18x() {
+	rt := &zzRT{up: map[string]bool{"a": true, "b": true, "c": true}}
+	c := NewClient(nil)
+	c.Transport = rt
+	c.Scheduling = []Scheduling{RoundRobinScheduling, LeastTimeScheduling}[vChoose("policy", 2)] // the policies with a cursor
+	vSetClockStep(1)
+	vSetTimerBudget(0)
+	vSetOneShotTimers(false)
+	c.Update("a", "b", "c")
+	vQuiesce()
+	if len(c.list) != 3 {
+		return
+	}
+	for i := 0; i < vChoose("calls-before", 3); i++ {
+		c.Call("S.M", nil, nil)
+	}
+	dead := []string{"a", "b", "c"}[vChoose("dies", 3)]
+	rt.up[dead] = false
+	for i := 0; i < 3; i++ {
+		c.Call("S.M", nil, nil) // whichever hit the dead target failed and marked it
+	}
+	c.detect()
+	vQuiesce()
+	c.detect()
+	vQuiesce()
+	for i := 0; i < 3; i++ {
+		n := len(rt.calls)
+		err := c.Call("S.M", nil, nil)
+		if len(rt.calls) == n+1 && rt.calls[n] == dead {
+			// the policy never picked the dead target before the detector rounds: found out now
+			continue
+		}
+		vAssert(err == nil && len(rt.calls) == n+1, "calls-succeed-while-another-target-is-healthy")
+	}
+	c.Close()
+	vReach("end")
+}
+
+// zzH_C18t: a parked caller whose DialTimeout expires at the very moment it is woken (both events
+// are ready when it looks), then - no target being live again - a second caller that has to wait:
+// the second caller is not released by anything left over from the first; it ends with ErrTimeout
+// once its own DialTimeout has elapsed (or stays parked), never at once with another error.
+func zzH_C18t() {
+	rt := &zzRT{up: map[string]bool{"a": false, "x": false}}
+	c := NewClient(nil)
+	c.Transport = rt
+	vSetClockStep(1)
+	vSetTimerBudget(0)
+	vSetOneShotTimers(true)
+	vSetTimersAnywhere(true)
+	c.Update("a")
+	vQuiesce()
+	var e1, e2 error
+	r1, r2 := false, false
+	vGo("caller1", func() {
+		e1 = c.Call("S.M", nil, nil)
+		r1 = true
+	})
+	vYield()
+	rt.up["a"] = true
+	c.detect()
+	vQuiesce()
+	if r1 {
+		vAssert(e1 == nil || e1 == ErrTimeout, "waiter-released-or-timed-out")
+	}
+	// a new target list whose only member is down: nobody is live
+	c.Update("x")
+	c.detect()
+	vQuiesce()
+	c.lock.Lock()
+	empty := len(c.list) == 0
+	c.lock.Unlock()
+	if !empty {
+		return
+	}
+	calls := len(rt.calls)
+	vGo("caller2", func() {
+		e2 = c.Call("S.M", nil, nil)
+		r2 = true
+	})
+	vQuiesce()
+	if r2 {
+		vAssert(e2 == ErrTimeout && len(rt.calls) == calls, "no-live-target-caller-fails-with-ErrTimeout")
+	}
+	c.Close()
+	vReach("end")
+}
